@@ -86,6 +86,9 @@ def make(kind, kwargs, hidden=None):
         return "v%012x" % enc(kwargs)
     if t == "bool":
         return bool(enc(kwargs) & 1)
+    if t == "npbool":     # what a comparison of numpy scalars / ndarray.all() returns
+        import numpy as np
+        return np.bool_(enc(kwargs) & 1)
     if t == "complex":
         return complex(float(enc(kwargs, "re")), float(enc(kwargs, "im") % 1000003))
     if t == "tuple":      # tuple:<n>  -> n float scalars
@@ -184,11 +187,10 @@ FAIL_EXCS = {"ProbeFailure": ProbeFailure, "StopIteration": StopIteration, "KeyE
              "ZeroDivisionError": ZeroDivisionError, "StopAsyncIteration": StopAsyncIteration}
 
 
-TLS = threading.local()     # TLS.nonroot = True: this thread plays a non-root MPI rank (the reduced value lives on rank 0 only)
-
-
 def probe_call(kwargs, kind, logfile=None, loglist=None, ctl=None, hidden=None):
-    if getattr(TLS, "nonroot", False):
+    # a thread marked vf_nonroot plays a non-root MPI rank: the reduced value lives on rank 0 only
+    # (an attribute of the thread object, not a module-level threading.local: probes are also pickled by value)
+    if getattr(threading.current_thread(), "vf_nonroot", False):
         return None
     c = _read_ctl(ctl)
     key = canon(kwargs)
